@@ -38,3 +38,18 @@ Definition run_comp (term : bool) (fs : list (Z * (Z * Z * list (Z * list Z)))) 
   | Some o => o
   | None => [(-1)%Z]
   end.
+
+(* stage C compares inside Coq (the observation of a stack is several thousand numbers; printing it for every
+   case would dominate the run): [] when the model's observation equals the implementation's, otherwise
+   -2 followed by the model's observation. *)
+Fixpoint zlist_eqb (a b : list Z) : bool :=
+  match a, b with
+  | [], [] => true
+  | x :: a', y :: b' => Z.eqb x y && zlist_eqb a' b'
+  | _, _ => false
+  end.
+
+Definition check_comp (term : bool) (fs : list (Z * (Z * Z * list (Z * list Z)))) (layers : list layer)
+           (x0 y0 x1 y1 : Z) (expected : list Z) : list Z :=
+  let o := run_comp term fs layers x0 y0 x1 y1 in
+  if zlist_eqb o expected then [] else (-2)%Z :: o.
